@@ -342,3 +342,70 @@ def monitor(kind, seed, n_games, backend='cudd'):
             evaluations=n, implementations_built=built, reachable_states=reach_total,
             samples=samples, failures=fails, kind=kind, backend=backend))
     return run
+
+
+def resolve_same_automaton(kind, seed, n_pairs, backend='cudd'):
+    """BOUNDED: no state kept between calls.  One automaton object is solved,
+    then its actions, liveness predicates and mode attributes are REPLACED (same
+    declarations) and it is solved again; each region is compared with the
+    explicit-state reference of the game present at call time; the verdict
+    likewise."""
+    def run():
+        from ovc import explicit
+        rnd = random.Random(seed)
+        fails = list()
+        n = 0
+        shapes_ = [(dict(x='bool'), dict(y='bool')), (dict(x='bool'), dict(y=(0, 2))), (dict(x=(0, 2)), dict(y='bool'))]
+        qinits = [r'\A \A', r'\E \E', r'\A \E', r'\E \A']
+        for _ in range(n_pairs):
+            de, ds = rnd.choice(shapes_)
+            nh, ng = rnd.choice([(1, 1), (1, 2), (2, 1)])
+            aut = None
+            for round_ in range(3):
+                moore, plus_one = rnd.choice([(True, True), (True, False), (False, True), (False, False)])
+                qinit = rnd.choice(qinits)
+                fresh = make_game(rnd, de, ds, moore, plus_one, qinit, nh, ng, backend)
+                if aut is None:
+                    aut = fresh
+                else:
+                    # same object, new game: copy the predicates into the old manager
+                    cp = lambda u: fresh.bdd.copy(u, aut.bdd)
+                    aut.action['env'], aut.action['sys'] = cp(fresh.action['env']), cp(fresh.action['sys'])
+                    aut.init['env'], aut.init['sys'] = cp(fresh.init['env']), cp(fresh.init['sys'])
+                    aut.win['<>[]'] = [cp(u) for u in fresh.win['<>[]']]
+                    aut.win['[]<>'] = [cp(u) for u in fresh.win['[]<>']]
+                    aut.moore, aut.plus_one, aut.qinit = moore, plus_one, qinit
+                n += 1
+
+                def bits(names):
+                    out = list()
+                    for v in names:
+                        d = aut.vars[v]
+                        out += [v] if d['type'] == 'bool' else list(d['bitnames'])
+                    return out
+                xb, yb = bits(list(de)), bits(list(ds))
+                base = xb + yb + [b + "'" for b in xb] + [b + "'" for b in yb]
+                gm_ = explicit.Game(len(xb), len(yb), 0, _tt(aut, aut.action['env'], base),
+                                    _tt(aut, aut.action['sys'], base), moore, plus_one)
+                st = xb + yb
+                hs = [_tt(aut, h, st) for h in aut.win['<>[]']]
+                gl = [_tt(aut, g, st) for g in aut.win['[]<>']]
+                try:
+                    with contextlib.redirect_stdout(io.StringIO()):
+                        if kind == 'streett':
+                            z = gr1.solve_streett_game(aut)[0]
+                            want = gm_.streett(hs, gl)
+                        else:
+                            z = gr1.solve_rabin_game(aut)[0][-1]
+                            want = gm_.rabin(hs, gl)
+                except Exception as e:
+                    fails.append(dict(name='solving again on the same automaton object runs', error=repr(e)[:200], round=round_))
+                    break
+                got = _tt(aut, z, st)
+                if got != set(want) and len(fails) < 5:
+                    fails.append(dict(name=f'{kind} region of the game PRESENT AT CALL TIME (same automaton object solved before with another game)',
+                                      round=round_, moore=moore, plus_one=plus_one, env=str(de), sys=str(ds), holds=nh, goals=ng,
+                                      differs_at=str(sorted(got ^ set(want))[:4]), seed=seed))
+        return dict(records=[], stats=dict(), functions={}, bounded=dict(
+            evaluations=n, kind=kind, backend=backend, failures=fails[:6]))
+    return run
